@@ -33,7 +33,7 @@ func ValidateTrace(trace []byte, lenRule string) (*VResult, *tlc.Result, error) 
 	if lenRule == "" {
 		lenRule = "equal"
 	}
-	cfg := fmt.Sprintf("CONSTANTS\n  LenRule = %q\n  StoreRule = \"last\"\n  MissRule = \"reject\"\n  TraceFile = \"trace.ndjson\"\n  Block = 250\nSPECIFICATION TSpec\nINVARIANT Done\nCHECK_DEADLOCK FALSE\n", lenRule)
+	cfg := fmt.Sprintf("CONSTANTS\n  LenRule = %q\n  StoreRule = \"last\"\n  MissRule = \"reject\"\n  RegRule = \"append\"\n  TraceFile = \"trace.ndjson\"\n  Block = 250\nSPECIFICATION TSpec\nINVARIANT Done\nCHECK_DEADLOCK FALSE\n", lenRule)
 	res, err := tlc.Run(tlc.Opts{
 		Module: trModule, CfgText: cfg, Workers: 1, Timeout: 30 * time.Minute, HeapGB: 5,
 		Files: map[string][]byte{trModule + ".tla": trBody, "trace.ndjson": trace},
